@@ -61,6 +61,7 @@ type c13Script struct {
 	SlowDur       int64
 	OpDelay       int64 // every lock op takes this long
 	RemoveAt      int64 // all lock files are removed by somebody else at this time; -1 never
+	IdemRemove    bool  // the backend answers Remove of a missing lock file with success (s3/gs/azure-like)
 	RemoveOldOnly bool  // the external remover keeps the newest lock file (the replacement being adopted)
 	UnlockAt      int64 // Unlock is called at this time
 	End           int64
@@ -196,7 +197,11 @@ func (b *c13Inner) Remove(ctx context.Context, h backend.Handle) error {
 	if h.Type == backend.LockFile {
 		b.delay()
 	}
-	return b.Backend.Remove(ctx, h)
+	err := b.Backend.Remove(ctx, h)
+	if err != nil && h.Type == backend.LockFile && b.s.sc.IdemRemove && b.Backend.IsNotExist(err) {
+		return nil
+	}
+	return err
 }
 
 func (b *c13Inner) List(ctx context.Context, t backend.FileType, fn func(backend.FileInfo) error) error {
@@ -419,6 +424,9 @@ func c13Scripts(c *vctx) []c13Script {
 		{Kind: "ext-remove-forced", FailFrom: iv + iv/2, FailUntil: iv + R - 50000, SlowFrom: -1, RemoveAt: 1000000, UnlockAt: -1, End: 70 * min},
 		// the old lock vanishes during the wait inside the forced refresh (between the two existence checks)
 		{Kind: "ext-remove-during-forced", FailFrom: iv + iv/2, FailUntil: iv + R - 50000, SlowFrom: -1, RemoveAt: iv + R + 100, RemoveOldOnly: true, UnlockAt: -1, End: 70 * min},
+		// the same on an object-store-like backend (Remove of a missing file succeeds)
+		{Kind: "ext-remove-during-forced-idem", FailFrom: iv + iv/2, FailUntil: iv + R - 50000, SlowFrom: -1, RemoveAt: iv + R + 100, RemoveOldOnly: true, IdemRemove: true, UnlockAt: -1, End: 70 * min},
+		{Kind: "ext-remove-idem", FailFrom: -1, FailUntil: -1, SlowFrom: -1, RemoveAt: 1000000, IdemRemove: true, UnlockAt: 40 * min, End: 70 * min},
 		{Kind: "ext-remove", FailFrom: -1, FailUntil: -1, SlowFrom: -1, RemoveAt: 1000000, UnlockAt: 40 * min, End: 70 * min},
 		{Kind: "op-delay", FailFrom: 3*iv + 1, FailUntil: -1, SlowFrom: -1, OpDelay: 20000, RemoveAt: -1, UnlockAt: -1, End: 70 * min},
 		{Kind: "transient", FailFrom: 2*iv - 1000, FailUntil: 2*iv + 40000, SlowFrom: -1, RemoveAt: -1, UnlockAt: 30 * min, End: 70 * min, Transient: true},
@@ -454,7 +462,7 @@ func c13Scripts(c *vctx) []c13Script {
 
 func c13Emit(c *vctx, o c13Obs) {
 	if o.Err != "" {
-		c.Case("error", false, 1, "mkCase (mkCfg 1 1 0 false) 0 [Tick (-1)] true [] 0 [] []", o.Err)
+		c.Case("error", false, 1, "mkCase (mkCfg 1 1 0 false) 0 [Tick (-1)] true [] 0 [] [] []", o.Err)
 		return
 	}
 	R := c13Refreshability.Milliseconds()
@@ -462,6 +470,8 @@ func c13Emit(c *vctx, o c13Obs) {
 	var samples []string
 	var forcedAfterRemoval []string
 	var forcedOkHasFile []string
+	var forcedOkOldExisted []string
+	listsInFreeze, removedBeforeCheck2 := 0, false
 	D := o.Acq
 	upd := func(d int64) {
 		if d > D {
@@ -543,6 +553,7 @@ func c13Emit(c *vctx, o c13Obs) {
 			ticksTo(ev.T, true)
 			tr = append(tr, "[FStart "+coqZ(ev.T)+"]")
 			inFreeze, fstart, fsave = true, ev.T, -1
+			listsInFreeze, removedBeforeCheck2 = 0, ev.ExtRem
 			if ev.ExtRem && ev.Own == 0 {
 				forcedAfterRemoval = append(forcedAfterRemoval, "pending")
 			}
@@ -552,6 +563,7 @@ func c13Emit(c *vctx, o c13Obs) {
 			if ev.Alive {
 				// reported success: the holder must own a lock file now
 				forcedOkHasFile = append(forcedOkHasFile, coqBool(ev.Own > 0))
+				forcedOkOldExisted = append(forcedOkOldExisted, coqBool(!removedBeforeCheck2))
 				tc := fsave
 				if tc < 0 {
 					tc = ev.T
@@ -566,6 +578,14 @@ func c13Emit(c *vctx, o c13Obs) {
 				forcedAfterRemoval[n-1] = coqBool(!ev.Alive)
 			}
 			inFreeze = false
+		case "list":
+			if inFreeze {
+				listsInFreeze++
+			}
+		case "ext-remove":
+			if inFreeze && listsInFreeze < 2 {
+				removedBeforeCheck2 = true
+			}
 		case "unlock-call":
 			if ev.Alive {
 				ticksTo(ev.T, true)
@@ -592,8 +612,8 @@ func c13Emit(c *vctx, o c13Obs) {
 	if len(tr) > 0 {
 		trace = "(" + strings.Join(tr, " ++ ") + ")"
 	}
-	term := fmt.Sprintf("mkCase (mkCfg ParamsC13.refreshability_timeout_ms (poll_of ParamsC13.refresh_interval_ms) %s %s) %s %s %s %s %s %s %s",
-		coqZ(D), coqBool(c13IsPatched()), coqZ(o.Acq), trace, coqBool(aliveEnd), coqList(samples), coqZ(int64(left)), coqList(forcedAfterRemoval), coqList(forcedOkHasFile))
+	term := fmt.Sprintf("mkCase (mkCfg ParamsC13.refreshability_timeout_ms (poll_of ParamsC13.refresh_interval_ms) %s %s) %s %s %s %s %s %s %s %s",
+		coqZ(D), coqBool(c13IsPatched()), coqZ(o.Acq), trace, coqBool(aliveEnd), coqList(samples), coqZ(int64(left)), coqList(forcedAfterRemoval), coqList(forcedOkHasFile), coqList(forcedOkOldExisted))
 	sb, _ := json.Marshal(o.Script)
 	c.Hist("kind=" + kind)
 	c.Case(kind, len(o.Events) > 8, len(o.Events), term, fmt.Sprintf("script=%s D=%dms -> %s", string(sb), D, strings.Join(hs, " ")))
